@@ -355,9 +355,11 @@ func runC18(env *core.Env) {
 		}
 	})
 	seqCov := c18Sequences(env)
+	linkCov := c18Symlinked(env)
 	validated := conf.run(env)
 	env.Finish("model_checking", map[string]interface{}{
 		"both_files_sequences": seqCov,
+		"symlinked_store":      linkCov,
 		"states":               len(jobs), "transitions": evals, "traces_validated_against_impl": validated, "samples": samples.list,
 		"evaluations": evals, "distinct_nontrivial": classes.len(), "exhaustive": env.TimeLeft(), "configurations": len(jobs),
 		"rule":                   "all 27 layouts of a 3-level tree (.ergo absent / directory / regular file per level) x start directory at every level x up to 12 spellings (cwd, --dir absolute, absolute with trailing slash, '.', '..', absolute through the child with '/..', '/../', '/./../.', relative name, './x/../x', the .ergo directory itself absolute and relative) + all 8 presence combinations of {plans.jsonl, events.jsonl, lock} x 10 commands, plus 3 forms of init on every existing store; distinct = (command, spelling, expected store, exit)",
@@ -551,4 +553,64 @@ func opsOf(names []string, idx []int) []string {
 		out = append(out, names[i])
 	}
 	return out
+}
+
+// c18Symlinked: a project whose .ergo is a symbolic link to a directory elsewhere (a plan shared between work trees).
+// Differential oracle, no opinion on how links ought to be treated: at every level of the tree and for every start
+// directory at or below it, each command must do exactly what it does on the twin tree in which .ergo is that
+// directory itself (same exit status, same output modulo the project root) - so all commands, init included, agree
+// on whether there is a store and which one it is.
+func c18Symlinked(env *core.Env) map[string]interface{} {
+	cmds := []core.Req{
+		core.R("", "--json", "list", "--all"), core.R("", "--json", "list", "--epics"), core.R("", "list").In(""), core.R("", "--json", "init"),
+		core.R("", "--json", "new", "task").In(`{"title":"created"}`), core.R("", "--json", "claim", "--agent", "z"), core.R("", "--json", "prune"),
+		core.R("", "--json", "compact"), core.R("", "--json", "plan").In(`{"title":"P","tasks":[{"title":"pa"}]}`),
+	}
+	type job struct{ lv, start int }
+	var jobs []job
+	for lv := 0; lv < 3; lv++ {
+		for start := lv; start < 3; start++ {
+			jobs = append(jobs, job{lv, start})
+		}
+	}
+	var runs int64
+	env.Parallel(len(jobs), func(w *core.Worker, i int) {
+		j := jobs[i]
+		base := c18Levels[j.lv]
+		p := func(s string) string { return filepath.Join(base, s) }
+		log := c18Log(fmt.Sprintf("L%d-plans", j.lv), int64(j.lv*2))
+		linked := core.Store{"D:a/b/c": nil, "shared/store/plans.jsonl": log, "shared/store/lock": nil}
+		up := strings.Repeat("../", j.lv)
+		linked["L:"+p(".ergo")] = []byte(up + "shared/store")
+		twin := core.Store{"D:a/b/c": nil, "D:shared/store": nil, p(".ergo/plans.jsonl"): log, p(".ergo/lock"): nil}
+		for _, c := range cmds {
+			run := func(st core.Store) core.Res {
+				st.Materialize(w.Proj)
+				req := c
+				req.Cwd = filepath.Join(w.Proj, c18Levels[j.start])
+				req.RandBase = 40
+				return w.Run(req)
+			}
+			a, b := run(linked), run(twin)
+			atomic.AddInt64(&runs, 2)
+			norm := func(r core.Res) string {
+				return fmt.Sprintf("exit=%d out=%s", r.Exit, strings.ReplaceAll(blankTS(r.Out), w.Proj, "<ROOT>"))
+			}
+			if norm(a) == norm(b) {
+				continue
+			}
+			sig := fmt.Sprintf("C18 kind=symlinked-store-treated-differently cmd=%s", opClass(c))
+			if env.ViolationSeen(sig) {
+				continue
+			}
+			rel := c
+			rel.Cwd = c18Levels[j.start]
+			tr := mkTrace(linked, ".ergo at level "+fmt.Sprint(j.lv)+" is a symlink to a directory", []core.Req{rel})
+			tr.Alt = []core.Req{rel}
+			tr.AltSt = twin
+			tr.FailIf = []Assert{{Kind: "alt_exit_differs", Step: 1}}
+			report(env, sig, fmt.Sprintf(".ergo at %q is a symbolic link to a directory, start directory %q: `%s` gives %s; with .ergo being that directory itself it gives %s", base, c18Levels[j.start], c.Shell(), clipS(norm(a), 200), clipS(norm(b), 200)), tr)
+		}
+	})
+	return map[string]interface{}{"layouts": len(jobs), "runs": runs, "rule": "a symlinked .ergo at each of 3 levels x start directory at or below it x 9 commands (init included): same exit status and output as on the twin tree where .ergo is the directory itself"}
 }
